@@ -1,0 +1,33 @@
+//go:build verif
+
+package nexus
+
+import "sort"
+
+// Verification hook for the VLANAllocator (property C20 of /verif).
+// Add-only, compiled only with -tags verif.  No behaviour of the package is changed.
+
+// VLANUsageForVerif is one entry of the reverse (pair -> NTE) index.
+type VLANUsageForVerif struct {
+	STag, CTag uint16
+	NTEID      string
+}
+
+// UsageForVerif returns the reverse index sTagUsage sorted by (S-TAG, C-TAG), the number of
+// per-S-TAG maps that exist, and the current S-TAG cursor.
+func (v *VLANAllocator) UsageForVerif() (entries []VLANUsageForVerif, sTagMaps int, currentSTag uint16) {
+	v.mu.RLock()
+	defer v.mu.RUnlock()
+	for s, usage := range v.sTagUsage {
+		for c, id := range usage {
+			entries = append(entries, VLANUsageForVerif{STag: s, CTag: c, NTEID: id})
+		}
+	}
+	sort.Slice(entries, func(i, j int) bool {
+		if entries[i].STag != entries[j].STag {
+			return entries[i].STag < entries[j].STag
+		}
+		return entries[i].CTag < entries[j].CTag
+	})
+	return entries, len(v.sTagUsage), v.currentSTag
+}
